@@ -189,7 +189,7 @@ Definition smem (n : string) (l : list string) : bool := existsb (String.eqb n) 
 Definition has_value (n : string) (vals : list (string * pyval)) : bool :=
   match field_get n vals with Some _ => true | None => false end.
 
-(* values for the init fields that were not supplied; None = a required field is missing *)
+(* values of the fields after construction: supplied, else default; None = a required init field is missing *)
 Fixpoint fill_defaults (fs : list fld) (vals : list (string * pyval)) : option (list (string * pyval)) :=
   match fs with
   | [] => Some []
@@ -197,7 +197,13 @@ Fixpoint fill_defaults (fs : list fld) (vals : list (string * pyval)) : option (
       match fill_defaults r vals with
       | None => None
       | Some rest =>
-          if negb (f_init f) then Some rest
+          if negb (f_init f) then
+            (* a field kept out of __init__ is not bound, but it still holds its default (found on the class)
+               or the product of its factory (called at the top of __init__) on every construction path *)
+            match f_default f with
+            | DValue d | DFactory d => Some ((f_name f, d) :: rest)
+            | DNone => Some rest
+            end
           else match field_get (f_name f) vals with
                | Some x => Some ((f_name f, x) :: rest)
                | None => match f_default f with
